@@ -12,6 +12,7 @@ import (
 	"reflect"
 	"runtime/debug"
 	"sort"
+	"strconv"
 	"strings"
 	"time"
 )
@@ -398,7 +399,7 @@ func (s *sched) pendingTimers() bool {
 
 func descOf(g *gstate) string {
 	p := &g.pending
-	return fmt.Sprintf("g%d:%s", g.gid, opNames[p.kind])
+	return "g" + strconv.Itoa(g.gid) + ":" + opNames[p.kind] // (no fmt here: its printer pool is invisible to the race detector inside the scheduler)
 }
 
 // step performs one scheduling decision. Returns false when the execution is over.
@@ -921,12 +922,32 @@ func CurrentGid() int { return getCur() }
 // MapOrderReverse flips the order (harnesses can run a scenario under both orders).
 var MapOrderReverse bool
 
+// keyString avoids fmt for the common key types: fmt's printer pool hands objects from goroutine to goroutine with
+// synchronisation that the race detector cannot see across the scheduler's (deliberately invisible) hand-offs.
+func keyString(k any) string {
+	switch v := k.(type) {
+	case string:
+		return v
+	case fmt.Stringer:
+		return v.String()
+	case int:
+		return strconv.Itoa(v)
+	case uint16:
+		return strconv.Itoa(int(v))
+	case uint8:
+		return strconv.Itoa(int(v))
+	case uint32:
+		return strconv.FormatUint(uint64(v), 10)
+	}
+	return fmt.Sprintf("%v", k)
+}
+
 func MapKeys[M ~map[K]V, K comparable, V any](m M) []K {
 	keys := make([]K, 0, len(m))
 	strs := make([]string, 0, len(m))
 	for k := range m {
 		keys = append(keys, k)
-		strs = append(strs, fmt.Sprintf("%v", k))
+		strs = append(strs, keyString(any(k)))
 	}
 	idx := make([]int, len(keys))
 	for i := range idx {
